@@ -847,6 +847,11 @@ def Mem.persistSketch (m : Mem) : Mem :=
 /-- the footer moves past whatever was just written (`ft` = observed footer, trace input) -/
 def Mem.bumpFooter (m : Mem) (ft : Nat) : Mem := { m with footer := max m.footer ft }
 
+/-- `recover_wal` right after `apply_records` (repair 5c6fd4b): replayed embeddings imply vector search,
+    although the writer's `enable_vec` never reached the file -/
+def Mem.enableVecForEmbs (ma : Mem) (embs : List VecEnt) : Mem :=
+  if !embs.isEmpty && !ma.vecEnabled then { ma with vecEnabled := true } else ma
+
 /-- `recover_wal`; `ft` = footer after the replay (index rebuild / Tantivy flush / re-persisted sketch
     track) -/
 def Mem.recoverWal (m1 : Mem) (ft : Nat) : Mem :=
@@ -856,7 +861,8 @@ def Mem.recoverWal (m1 : Mem) (ft : Nat) : Mem :=
     | none => m1
     | some (ma, delta) =>
       -- (repaired code: the sketch track is re-persisted after the replay)
-      ((if delta.nonEmpty then ma.rebuildIndexes delta.embs delta.inserted ft else ma.flushTantivy ft).persistSketch.bumpFooter ft).checkpoint
+      ((if delta.nonEmpty then (ma.enableVecForEmbs delta.embs).rebuildIndexes delta.embs delta.inserted ft
+        else (ma.enableVecForEmbs delta.embs).flushTantivy ft).persistSketch.bumpFooter ft).checkpoint
 
 /-- `load_memories_track`, `load_sketch_track` (repaired code: BEFORE the WAL replay, so that the
     replay's index rebuild persists them again) -/
@@ -891,14 +897,19 @@ def compact : List Frame → Nat → List Frame × Nat
       let (rest, c) := compact fs cur
       ({ f with off := 0, len := 0 } :: rest, c)
 
-/-- the compaction step of `vacuum` on the handle: payload pointers rewritten, Tantivy state cleared -/
+/-- the compaction step of `vacuum` on the handle: payload pointers rewritten, the payload region ends
+    at the compacted cursor (repair 0e33b6e), Tantivy state cleared -/
 def Mem.compactFrames (m1 : Mem) : Mem :=
-  { m1 with frames := (compact m1.frames 0).1, dataEnd := (compact m1.frames 0).2, engine := false,
+  { m1 with frames := (compact m1.frames 0).1, dataEnd := (compact m1.frames 0).2,
+            payloadEnd := (compact m1.frames 0).2, engine := false,
             tantivyDirty := false, tantivySegs := false }
 
-/-- `vacuum()`; `ftCommit` / `ftRebuild` = footers after the leading commit and the final rebuild -/
+/-- `vacuum()`; `ftCommit` / `ftRebuild` = footers after the leading commit and at the end.  After the
+    rebuild the sketch track is re-persisted and the WAL checkpointed (repair 0e33b6e): nothing stays
+    pending. -/
 def Mem.vacuum (m : Mem) (ftCommit ftRebuild : Nat) : Mem × Out :=
-  if (m.commit ftCommit).2.isAck then ((m.commit ftCommit).1.compactFrames.rebuildIndexes [] [] ftRebuild, .ok)
+  if (m.commit ftCommit).2.isAck then
+    ((((m.commit ftCommit).1.compactFrames.rebuildIndexes [] [] ftRebuild).persistSketch.bumpFooter ftRebuild).checkpoint, .ok)
   else m.commit ftCommit
 
 /-- `begin_batch(opts)`: optional WAL pre-sizing, then batch options are recorded -/
